@@ -2,7 +2,13 @@
 
 package p2p
 
-import pubsub "github.com/libp2p/go-libp2p-pubsub"
+import (
+	"context"
+
+	pubsub "github.com/libp2p/go-libp2p-pubsub"
+
+	"github.com/shutter-network/rolling-shutter/rolling-shutter/p2pmsg"
+)
 
 // Verification hooks (build tag "verif"): read-only accessors used by the runtime-monitoring
 // harness. They add no behaviour.
@@ -22,4 +28,17 @@ func (m *P2PMessaging) VerifTopics() []string {
 func (m *P2PMessaging) VerifHasValidator(topic string) bool {
 	_, ok := m.validatorRegistry[topic]
 	return ok
+}
+
+// VerifNewSpanForReceive does what P2PMessaging.handle does between unmarshalling a received
+// message and dispatching it: it opens the receive span (which reads the envelope's trace context
+// when tracing is enabled). The returned function ends the span.
+func (m *P2PMessaging) VerifNewSpanForReceive(
+	ctx context.Context, traceContext *p2pmsg.TraceContext, msg *pubsub.Message, p2pMsg p2pmsg.Message,
+) (context.Context, func()) {
+	if m.P2P == nil {
+		return ctx, func() {}
+	}
+	ctx, span, _ := newSpanForReceive(ctx, m.P2P, traceContext, msg, p2pMsg)
+	return ctx, func() { span.End() }
 }
